@@ -752,6 +752,32 @@ pub fn rec_budget(args: &Args) {
             }
         }
     }
+    // the client's Block2 preference has to survive from intercept_request to intercept_response of the same
+    // exchange however many exchanges on other keys the server handles in between (a server that defers replies)
+    let crowd_sizes: Vec<usize> = if thorough { vec![1, 31, 32, 33, 64, 300, 1100] } else { vec![1, 31, 32, 33, 64, 300] };
+    for (i, nother) in crowd_sizes.into_iter().enumerate() {
+        let szx = [0u8, 2, 1][i % 3];
+        let mut h = H::new(&mut out, 1152, 3_600_000, start);
+        let tag = json!({"kind": "deferred-crowd", "n": nother});
+        let pkt = mkreq(&ReqSpec { code: 1, typ: 0, mid: 7, tok: vec![7, 7], segs: &segs[0], b1: None, b2: Some((0, false, szx)), pay: vec![], extra: vec![] });
+        let (o, mut req) = h.ireq(&mut out, "client-d", &pkt, &tag);
+        for k in 0..nother {
+            let p = mkreq(&ReqSpec { code: 1, typ: 0, mid: 100 + k as u16, tok: vec![3], segs: &[format!("o{}", k).into_bytes()], b1: None, b2: None, pay: vec![], extra: vec![] });
+            let (o2, mut rq) = h.ireq(&mut out, if k % 2 == 0 { "client-d" } else { "client-e" }, &p, &json!({"kind": "crowd"}));
+            if o2["k"] == "ok" && o2["handled"] == false {
+                if let Some(resp) = rq.response.as_mut() {
+                    resp.message.payload = vec![1, 2, 3];
+                }
+                let _ = h.iresp(&mut out, if k % 2 == 0 { "client-d" } else { "client-e" }, &mut rq, &json!({"kind": "crowd"}));
+            }
+        }
+        if o["k"] == "ok" && o["handled"] == false {
+            if let Some(resp) = req.response.as_mut() {
+                resp.message.payload = body_bytes(3000, 21);
+            }
+            let _ = h.iresp(&mut out, "client-d", &mut req, &tag);
+        }
+    }
     let n = out.finish();
     println!("{}", json!({"events": n, "transfers": xid}));
 }
@@ -915,6 +941,61 @@ pub fn rec_hostile(args: &Args) {
                         let (o, mut req) = h.ireq(&mut out, "h1", &pkt, &json!({"kind": "overlap"}));
                         if o["k"] == "ok" && o["handled"] == false {
                             let _ = h.iresp(&mut out, "h1", &mut req, &json!({"kind": "overlap"}));
+                        }
+                    }
+                }
+            }
+        }
+    }
+    // directed: Block2 requests that name a block at, just before and beyond the end of a body - a cached one
+    // (after an honest block 0) and one the application has just produced (first request naming a later block)
+    for szx in [0u8, 1, 2] {
+        let size = 16usize << szx;
+        for blocks in [1usize, 2, 3] {
+            for dlen in [-1i64, 0, 1] {
+                let len = ((blocks * size) as i64 + dlen) as usize;
+                let body = body_bytes(len, 9);
+                // budget that yields blocks of `size` for a reply without options and a 1-byte token
+                let m = 4 + 1 + 4 + 12 + size + 3;
+                for probe_szx in 0..=szx {
+                    let psize = 16usize << probe_szx;
+                    for num in [len / psize, (len / psize).saturating_sub(1), len / psize + 1, (len + psize - 1) / psize] {
+                        // cached path
+                        let mut h = H::new(&mut out, m, 3_600_000, start);
+                        let tag = json!({"kind": "at-the-end"});
+                        let first = mkreq(&ReqSpec { code: 1, typ: 0, mid: 1, tok: vec![4], segs: &[b"big".to_vec()], b1: None, b2: Some((0, false, szx)), pay: vec![], extra: vec![] });
+                        let (o, mut req) = h.ireq(&mut out, "h1", &first, &tag);
+                        if o["k"] == "ok" && o["handled"] == false {
+                            if let Some(resp) = req.response.as_mut() {
+                                resp.message.payload = body.clone();
+                            }
+                            let _ = h.iresp(&mut out, "h1", &mut req, &tag);
+                        }
+                        let probe = mkreq(&ReqSpec { code: 1, typ: 0, mid: 2, tok: vec![4], segs: &[b"big".to_vec()], b1: None, b2: Some((num as u16, false, probe_szx)), pay: vec![], extra: vec![] });
+                        let (o, mut req) = h.ireq(&mut out, "h1", &probe, &tag);
+                        if o["k"] == "ok" && o["handled"] == false {
+                            if let Some(resp) = req.response.as_mut() {
+                                resp.message.payload = body.clone();
+                            }
+                            let _ = h.iresp(&mut out, "h1", &mut req, &tag);
+                        }
+                        // the honest client goes on with block 1
+                        let next = mkreq(&ReqSpec { code: 1, typ: 0, mid: 3, tok: vec![4], segs: &[b"big".to_vec()], b1: None, b2: Some((1, false, szx)), pay: vec![], extra: vec![] });
+                        let (o, mut req) = h.ireq(&mut out, "h1", &next, &tag);
+                        if o["k"] == "ok" && o["handled"] == false {
+                            if let Some(resp) = req.response.as_mut() {
+                                resp.message.payload = body.clone();
+                            }
+                            let _ = h.iresp(&mut out, "h1", &mut req, &tag);
+                        }
+                        // fresh path: the first request names that block
+                        let mut h = H::new(&mut out, m, 3_600_000, start);
+                        let (o, mut req) = h.ireq(&mut out, "h2", &probe, &tag);
+                        if o["k"] == "ok" && o["handled"] == false {
+                            if let Some(resp) = req.response.as_mut() {
+                                resp.message.payload = body.clone();
+                            }
+                            let _ = h.iresp(&mut out, "h2", &mut req, &tag);
                         }
                     }
                 }
@@ -1214,19 +1295,27 @@ pub fn rec_expiry(args: &Args) {
     }
     // every use counts as a use: a transfer kept busy only by repeats of the last block request (lost
     // replies), each gap well below the expiry, the total well above it - the next block still comes from the cache
-    for ttl in if thorough { vec![60u64, 100, 150] } else { vec![80u64] } {
+    for (ttl, refused) in if thorough { vec![(60u64, false), (100, false), (150, false), (100, true), (150, true)] } else { vec![(80u64, false), (100, true)] } {
         let mut h = H::new(&mut out, 1152, ttl, start);
-        let tag = json!({"kind": "keepalive", "ttl": ttl});
+        let tag = json!({"kind": "keepalive", "ttl": ttl, "refused": refused});
         let body = body_bytes(100, 6);
         let app = json!({"some": true, "v": {"code": 0x45, "pay": jbytes(&body), "opts": []}});
         for k in 0..2u16 {
             let p = mkreq(&ReqSpec { code: 1, typ: 0, mid: next_mid(), tok: vec![1], segs: &seg, b1: None, b2: Some((k, false, 0)), pay: vec![], extra: vec![] });
             run_step(&mut h, &mut out, &json!({"op": "ireq", "ep": "sleeper", "req": jpkt(&p), "app": app}), &tag);
         }
-        for _ in 0..6 {
+        for i in 0..6 {
             run_step(&mut h, &mut out, &json!({"op": "sleep", "ms": ttl * 3 / 10}), &tag);
-            let p = mkreq(&ReqSpec { code: 1, typ: 0, mid: next_mid(), tok: vec![1], segs: &seg, b1: None, b2: Some((1, false, 0)), pay: vec![], extra: vec![] });
-            run_step(&mut h, &mut out, &json!({"op": "ireq", "ep": "sleeper", "req": jpkt(&p), "app": app}), &tag);
+            // every second use is a request for this key that the handler refuses (a body beyond the budget
+            // sent without Block1): the key is in use all the same
+            let p = if i % 2 == 1 && refused {
+                mkreq(&ReqSpec { code: 1, typ: 0, mid: next_mid(), tok: vec![1], segs: &seg, b1: None, b2: None, pay: vec![0x55; 1300], extra: vec![] })
+            } else if refused {
+                continue;
+            } else {
+                mkreq(&ReqSpec { code: 1, typ: 0, mid: next_mid(), tok: vec![1], segs: &seg, b1: None, b2: Some((1, false, 0)), pay: vec![], extra: vec![] })
+            };
+            run_step(&mut h, &mut out, &json!({"op": "ireq", "ep": "sleeper", "req": jpkt(&p), "app": {"some": false}}), &tag);
         }
         run_step(&mut h, &mut out, &json!({"op": "sleep", "ms": ttl * 3 / 10}), &tag);
         let p = mkreq(&ReqSpec { code: 1, typ: 0, mid: next_mid(), tok: vec![1], segs: &seg, b1: None, b2: Some((2, false, 0)), pay: vec![], extra: vec![] });
@@ -1237,9 +1326,15 @@ pub fn rec_expiry(args: &Args) {
             let p = mkreq(&ReqSpec { code: 3, typ: 0, mid: next_mid(), tok: vec![2], segs: &up, b1: Some((k, true, 0)), b2: None, pay: body_bytes(16, 9 + k as usize), extra: vec![] });
             run_step(&mut h, &mut out, &json!({"op": "ireq", "ep": "sleeper", "req": jpkt(&p), "app": {"some": false}}), &tag);
         }
-        for _ in 0..6 {
+        for i in 0..6 {
             run_step(&mut h, &mut out, &json!({"op": "sleep", "ms": ttl * 3 / 10}), &tag);
-            let p = mkreq(&ReqSpec { code: 3, typ: 0, mid: next_mid(), tok: vec![2], segs: &up, b1: Some((1, true, 0)), b2: None, pay: body_bytes(16, 10), extra: vec![] });
+            let p = if i % 2 == 1 && refused {
+                mkreq(&ReqSpec { code: 3, typ: 0, mid: next_mid(), tok: vec![2], segs: &up, b1: None, b2: None, pay: vec![0x55; 1300], extra: vec![] })
+            } else if refused {
+                continue;
+            } else {
+                mkreq(&ReqSpec { code: 3, typ: 0, mid: next_mid(), tok: vec![2], segs: &up, b1: Some((1, true, 0)), b2: None, pay: body_bytes(16, 10), extra: vec![] })
+            };
             run_step(&mut h, &mut out, &json!({"op": "ireq", "ep": "sleeper", "req": jpkt(&p), "app": {"some": false}}), &tag);
         }
         run_step(&mut h, &mut out, &json!({"op": "sleep", "ms": ttl * 3 / 10}), &tag);
@@ -1317,7 +1412,8 @@ pub fn rec_expiry(args: &Args) {
     // reclamation: abandoned transfers on distinct endpoints; idle; one unrelated call; nothing left alive
     // (the "next use" being: a request on an unrelated key, a response pushed through on an unrelated key,
     // a request on one of the abandoned keys, a request on a key that was kept busy throughout the idle time)
-    for (n, variant) in if thorough { vec![(1usize, 0u8), (5, 1), (20, 2), (50, 3), (7, 0), (3, 1), (2, 2), (4, 3), (9, 4), (11, 5)] } else { vec![(1usize, 0u8), (12, 1), (3, 2), (5, 3), (4, 4), (6, 5)] } {
+    // ... a request the handler refuses: a body beyond the budget without Block1 (6), options beyond the budget (7)
+    for (n, variant) in if thorough { vec![(1usize, 0u8), (5, 1), (20, 2), (50, 3), (7, 0), (3, 1), (2, 2), (4, 3), (9, 4), (11, 5), (6, 6), (13, 7), (2, 6)] } else { vec![(1usize, 0u8), (12, 1), (3, 2), (5, 3), (4, 4), (6, 5), (5, 6), (3, 7)] } {
         let ttl = 30u64;
         let prefix = format!("abandoned{}v{}-", n, variant);
         let mut h = H::new(&mut out, 1152, ttl, start);
@@ -1380,6 +1476,14 @@ pub fn rec_expiry(args: &Args) {
             3 => {
                 let mut rq = CoapRequest::from_packet(other.clone(), Ep::new("busy-key"));
                 let _ = guarded(|| h.h.intercept_request(&mut rq));
+            }
+            6 | 7 => {
+                let big = if variant == 6 {
+                    mkreq(&ReqSpec { code: 3, typ: 0, mid: next_mid(), tok: vec![3], segs: &[b"unrelated".to_vec()], b1: None, b2: None, pay: vec![0x33; 1400], extra: vec![] })
+                } else {
+                    mkreq(&ReqSpec { code: 1, typ: 0, mid: next_mid(), tok: vec![3], segs: &[b"unrelated".to_vec()], b1: None, b2: None, pay: vec![], extra: vec![(2048, vec![0x44; 700]), (2049, vec![0x44; 700])] })
+                };
+                let _ = h.ireq(&mut out, "unrelated", &big, &json!({"kind": "reclaim-trigger-refused"}));
             }
             _ => {
                 let _ = h.ireq(&mut out, "unrelated", &other, &json!({"kind": "reclaim-trigger"}));
